@@ -25,6 +25,37 @@ var BoundaryLens = func() []int {
 
 // Text: n octets of printable ASCII the way clients and servers write their strings: bare, or ended by one or
 // several NULs, a blank or a line end, now and then with a NUL in front or in the middle.
+// ClientID: a client identifier (option 61) in one of the forms clients send: the hardware type followed by the hardware
+// address (the packet's own, or another one of 1..16 octets), type 0 followed by a serial number, the RFC 4361 form
+// (255, IAID, DUID), a lone type octet.
+func ClientID(r *rand.Rand, htype byte, chaddr []byte) []byte {
+	switch r.IntN(6) {
+	case 0, 1:
+		if len(chaddr) > 0 {
+			return append([]byte{htype}, chaddr...)
+		}
+		fallthrough
+	case 2:
+		a := make([]byte, 1+r.IntN(16))
+		if r.IntN(2) == 0 {
+			a = make([]byte, 6)
+		}
+		for i := range a {
+			a[i] = byte(r.UintN(256))
+		}
+		return append([]byte{htype}, a...)
+	case 3:
+		return append([]byte{0}, "FOC1234X5YZ"...)
+	case 4:
+		v := []byte{255, 0, 0, 0, byte(r.UintN(4)), 0, 3, 0, 1}
+		for i := 0; i < 6; i++ {
+			v = append(v, byte(r.UintN(256)))
+		}
+		return v
+	}
+	return []byte{htype}
+}
+
 // options whose value is text (RFC 2132 strings, class identifiers, the RFC 3004/4578/5970-style names ...)
 var textCodes = []byte{12, 14, 15, 17, 18, 40, 47, 56, 60, 62, 64, 66, 67, 86, 87, 98, 100, 101, 114, 12, 15, 66, 67}
 
@@ -236,6 +267,9 @@ func Packet(r *rand.Rand, maxOpts int) (*dhcpv4.DHCPv4, *ref4.P4) {
 		}
 		if code == 82 && l > 2 && r.IntN(2) == 0 {
 			v = AgentInfo(r, l)
+		}
+		if code == 61 && r.IntN(3) != 0 {
+			v = ClientID(r, byte(p.HWType), hw)
 		}
 		p.Options[code] = v
 		e.Opts[code] = append([]byte{}, v...)
